@@ -82,3 +82,12 @@ package neuronjson
 //@ func Data.ServeHTTP
 //@   prop C11 C20
 //@   structural
+
+// ---- goroutine/parent races on captured variables (C11), structural contracts ----
+// Each function below starts goroutines; the only obligation generated for it is that no local variable
+// written by a goroutine it starts is accessed by the function afterwards (#gorace...). The bodies are not
+// executed symbolically.
+//@ func Data.ingestJson
+//@   prop C11
+//@   structural
+
